@@ -39,7 +39,8 @@ BLOCK_RULE_FUNCS = {
 
 
 CONTAINER_RULE_FUNCS = {"blockquote": ("markdown_it.rules_block.blockquote.blockquote", "contracts.cons"), "list": ("markdown_it.rules_block.list.list_block", "contracts.listc"),
-                        "reference": ("markdown_it.rules_block.reference.reference", "contracts.refdef")}
+                        "reference": ("markdown_it.rules_block.reference.reference", "contracts.refdef"),
+                        "table": ("markdown_it.rules_block.table.table", "contracts.tablec")}
 
 
 def _monitored_md(state, cfg, containers=False):
